@@ -901,6 +901,22 @@ def search(payload):
                 d["fresh_interpreter_script"] = D10_SCRIPT
                 d["fresh_interpreter_output"] = run_script(D10_SCRIPT)
                 break
+    # scripts run DIRECTLY (`python -c`): the module frame is the outermost frame of the interpreter (no harness frames below it)
+    for k in "TRL":
+        ref = REF[k]("P")
+        src = ("from predicate import *\n"
+               f"P = is_str_p | is_list_of_p({ref})\n"
+               "def check(v):\n    try:\n        return P(v)\n    except Exception as e:\n        return type(e).__name__\n"
+               "for v in (['a'], [1], 'a', ['a', ['b']], ['a', [2]], []):\n"
+               "    try:\n        r = P(v)\n    except Exception as e:\n        r = type(e).__name__\n"
+               "    print(repr(v), r, check(v))\n")
+        want = "\n".join(f"{v!r} {rec(is_str)(v)} {rec(is_str)(v)}" for v in (["a"], [1], "a", ["a", ["b"]], ["a", [2]], []))
+        n += 12
+        got = run_script(src)
+        if got != want:
+            uniq.append({"config": f"{KIND_NAME[k]}/module_level_of_a_script_run_directly", "predicate": "P", "x": "['a'], [1], 'a', ['a', ['b']], ['a', [2]], []",
+                         "implementation": got[-600:], "expected": want, "source": src,
+                         "note": "columns: value, P(v) at module level, P(v) from a function of the script"})
     return {"evaluations": n, "failures": uniq[:12], "known_hits": [],
             "configurations": len(cfgs) + len(JSON_CONFIGS), "failing_configurations": sorted({f["config"] for f in fails}),
             "samples": samples[:4]}
